@@ -118,6 +118,68 @@ fn sequential(ctx: &Ctx, p: &Proto, b: Backend, writer: Side) {
             }
         }
     }
+    // (2b) history independence with every buffer fit: four messages of different lengths, read (and written
+    // again) in all 24 orders, with tight (exactly payload-sized / message-sized), roomy and alternating output
+    // buffers - a backend that keeps scratch state between calls shows up as an order-dependent result
+    {
+        let items: [(u64, usize); 4] = [(3, 300), (9, 15), (1 << 33, 64), (7, 0)];
+        let mut pre = hs.clone();
+        pre.extend(sess::convert_ops(Mode::SS));
+        for (n, plen) in items {
+            pre.push(Op::SWrite { side: writer, nonce: n, plen, cap: Cap::Roomy });
+        }
+        let e0 = Exec::run(&cfg, &pre);
+        let w0 = t_wires(&e0, writer);
+        if w0.len() == 4 {
+            let mut idx: Vec<usize> = (0..4).collect();
+            let mut orders = vec![];
+            permute(&mut idx, 0, &mut orders);
+            let policies: [&[Cap]; 4] = [&[Cap::NeedPlus(0)], &[Cap::Roomy], &[Cap::NeedPlus(0), Cap::Roomy], &[Cap::NeedPlus(1), Cap::NeedPlus(0)]];
+            let mut ops3 = pre.clone();
+            for pol in policies {
+                for ord in &orders {
+                    for (j, k) in ord.iter().enumerate() {
+                        let (n, plen) = items[*k];
+                        let cap = pol[j % pol.len()].clone();
+                        ops3.push(Op::SRead { side: reader, nonce: n, msg: Msg::Raw(w0[*k].2.clone()), cap: cap.clone() });
+                        ops3.push(Op::SWrite { side: writer, nonce: n, plen, cap });
+                    }
+                }
+            }
+            let e3 = Exec::run(&cfg, &ops3);
+            ctx.add(&ctx.evaluations, e3.steps.len() as u64);
+            ctx.add(&ctx.transitions, e3.steps.len() as u64);
+            ctx.add(&ctx.traces, (orders.len() * 4) as u64);
+            ctx.count("tight_buffer_orders", (orders.len() * 4) as u64);
+            let mut wi = 4; // transport wires written after the first four
+            let w3 = t_wires(&e3, writer);
+            for (k, s) in e3.steps.iter().enumerate().skip(pre.len()) {
+                match &s.op {
+                    Op::SRead { nonce, .. } => {
+                        let (n, plen) = *items.iter().find(|i| i.0 == *nonce).unwrap();
+                        let ok = matches!(&s.real, crate::exec::Real::Ok(l, b) if *l == plen && *b == payload_bytes(plen, 0x80 ^ (n as u8)));
+                        if !ok {
+                            ctx.violation("a stateless read of a genuine message fails or returns other bytes depending on earlier calls and buffer sizes", format!("{label}: step {k} nonce {n:#x} payload {plen} buffer {} -> {}", s.cap, s.real.short()), sess::case_json(&cfg, &ops3[..=k]));
+                            return;
+                        }
+                    },
+                    Op::SWrite { nonce, .. } => {
+                        let orig = items.iter().position(|i| i.0 == *nonce).unwrap();
+                        let same = s.real.is_ok() && w3.get(wi).map(|w| w.2 == w0[orig].2).unwrap_or(false);
+                        if s.real.is_ok() {
+                            wi += 1;
+                        }
+                        if !same {
+                            ctx.violation("a stateless write under the same nonce and payload fails or produces other bytes depending on earlier calls and buffer sizes", format!("{label}: step {k} nonce {nonce:#x} buffer {} -> {}", s.cap, s.real.short()), sess::case_json(&cfg, &ops3[..=k]));
+                            return;
+                        }
+                    },
+                    _ => {},
+                }
+            }
+            ctx.add(&ctx.nontrivial, (orders.len() * 4) as u64);
+        }
+    }
     // (3) the message under nonce n equals the n-th message of a stateful sender
     let mut ops_t = hs.clone();
     ops_t.extend(sess::convert_ops(Mode::TT));
@@ -203,7 +265,7 @@ use conc::{explore_mix, mixes, stress_mix};
 pub fn run(tier: Tier) -> i32 {
     let ctx = Ctx::new("C16", tier, "model_checking");
     let quick = ctx.quick();
-    ctx.set_rule("sequential: for every cipher x backend x writer role: read(n, write(n, p)) == p for an 80-value nonce alphabet x payload sizes {0,1,64,1000}, read twice; all 120 orders of five calls x 3 repetitions give identical bytes; stateless message under n == n-th stateful message for n in 0..=8, and == the stateful message after verif_set_sending_nonce(n) for 8 large nonces, and for the 65519-byte payload. concurrent: shuttle DFS over every interleaving of the pre-cipher/cipher/post-cipher segments of 2 threads x 2 calls and 3 threads x 1 call on a shared StatelessTransportState (6 call mixes x ciphers x backends), every call's result compared with the sequential function; states = schedules explored");
+    ctx.set_rule("sequential: for every cipher x backend x writer role: read(n, write(n, p)) == p for an 80-value nonce alphabet x payload sizes {0,1,64,1000}, read twice; all 120 orders of five calls x 3 repetitions give identical bytes; stateless message under n == n-th stateful message for n in 0..=8, and == the stateful message after verif_set_sending_nonce(n) for 8 large nonces, and for the 65519-byte payload. concurrent: shuttle DFS over every interleaving of the pre-cipher/cipher/post-cipher segments of 2 threads x 2 calls and 3 threads x 1 call on a shared StatelessTransportState (7 call mixes, one of them reading into exactly payload-sized buffers, x ciphers x backends), every call's result compared with the sequential function; states = schedules explored");
     // sequential
     let mut seq_jobs = vec![];
     for (c, b) in cipher_backends() {
@@ -289,10 +351,12 @@ pub fn run(tier: Tier) -> i32 {
     let rounds = if quick { 3000 } else { 40000 };
     let mut stress_calls = 0;
     for (label, th) in mixes() {
-        let (n, v) = stress_mix("ChaChaPoly", false, th.clone(), rounds);
-        stress_calls += n;
-        for d in v {
-            ctx.violation("a concurrent stateless call returned something else than the sequential function", format!("ChaChaPoly Default [{label}] (free-running threads): {d}"), json!({"kind": "stress", "mix": label}));
+        for (cn, ring) in [("ChaChaPoly", false), ("AESGCM", true)] {
+            let (n, v) = stress_mix(cn, ring, th.clone(), rounds);
+            stress_calls += n;
+            for d in v {
+                ctx.violation("a concurrent stateless call returned something else than the sequential function", format!("{cn} {} [{label}] (free-running threads): {d}", if ring { "Ring" } else { "Default" }), json!({"kind": "stress", "mix": label, "cipher": cn, "backend": if ring { Backend::Ring } else { Backend::Default }}));
+            }
         }
     }
     ctx.count("free_running_thread_calls (sample, not enumeration)", stress_calls);
@@ -306,7 +370,7 @@ pub fn run(tier: Tier) -> i32 {
 }
 
 /// (number of files, lines that mention a synchronisation primitive)
-fn scan_sync_primitives(dir: &str) -> (usize, Vec<String>) {
+pub fn scan_sync_primitives(dir: &str) -> (usize, Vec<String>) {
     let mut files = 0;
     let mut hits = vec![];
     let mut stack = vec![std::path::PathBuf::from(dir)];
@@ -333,7 +397,7 @@ fn scan_sync_primitives(dir: &str) -> (usize, Vec<String>) {
     (files, hits)
 }
 
-fn run_mapped_copy(tier: &str) -> Result<serde_json::Value, String> {
+pub fn run_mapped_copy(tier: &str) -> Result<serde_json::Value, String> {
     let out = std::process::Command::new(format!("{}/harness-c16x/run.sh", *crate::ctx::VERIF_DIR)).arg(tier).output().map_err(|e| e.to_string())?;
     let text = String::from_utf8_lossy(&out.stdout);
     let line = text.lines().rev().find(|l| l.starts_with('{')).ok_or("no result")?;
